@@ -36,6 +36,8 @@ def compile_program(nmfu, src, flags, name="p", path="p.nmfu"):
         source = cctx.generate_source()
     except nmfu.NMFUError:
         raise
+    except TimeoutError:
+        raise
     except RecursionError as e:
         raise InternalCompilerError("RecursionError") from None
     except Exception as e:
